@@ -6,6 +6,16 @@ import os
 VERIF = os.path.dirname(os.path.dirname(os.path.abspath(__file__)))
 
 CHECKS = {
+    "C05": dict(
+        technique="data-out parameter lists transcribed into TLA+ as parsers with exact-length predicates (T10Data.tla "
+                  "ParseOut/Exact); every list the library composes from a random valid dictionary is parsed by TLC and "
+                  "compared with the input (Trace_Data Marshal events); the CDB is judged by Trace_Command",
+        text="MODE SELECT(6)/(10) lists with 0-3 pages of four kinds, PR OUT basic / SPEC_I_PT with 0-3 TransportIDs / "
+             "REGISTER AND MOVE, five TransportID kinds with iSCSI name lengths across the padding boundaries and ISIDs, "
+             "EXTENDED COPY LID1/LID4 with E4h CSCD descriptors, six segment types and inline data: value placement, "
+             "every embedded length exact, parameter list length in the CDB, constructible for every valid dictionary.",
+        note="Oracle = my transcription; SOP TransportID not judged; LID4 header as in SPC-4 r37.",
+        ref="6 C05"),
     "C12": dict(
         technique="conformant block target in TLA+ (TargetRules/Target.tla: finds the command by opcode, reads LBA/lengths "
                   "off the CDB with T10Cdb field positions, disk = LBA -> block) model-checked for read-your-writes through "
